@@ -44,7 +44,7 @@ def run_histories(ctx, out, cases, what, gap=None, release=False):
         rel = ctx.harness(ops, release=True)
         for o, r, rr, w in zip(ops, impl, rel, want):
             if rr != r and rr != "unanswered":
-                out.oracle_failures.append({"op": o, "observed": "release build: " + rr[:400], "expected": "dev build: " + r[:400], "key": o[:300],
+                out.oracle_failures.append({"op": o, "observed": rr[:600], "expected": r, "release": True, "note": "observed = release build, expected = dev build", "key": o[:300],
                                             "what": f"{what}: the release build of the client (no overflow checks / debug assertions) does not behave like the dev build"})
         out.count("also in the release build", len(ops))
     if gap:
